@@ -179,6 +179,15 @@ int vp_case(Choice& c, Report& rep) {
   std::vector<float> x;
   bool all_vad = true, celt_only = true;
   sig::generate(g.family, sig_seed, g.Fs, g.ch, N * fs, amp, x);
+  // hash-derived generator switches (no new choices: committed replays keep their meaning)
+  const uint64_t gh = fnv1a(c.d, c.n);
+  // (a) a mono-coded stream decoded by stereo decoders (stream channel count != decoder channel count during concealment)
+  const bool mono_stream = g.ch == 2 && family != 2 && (gh % 4) == 1;
+  // (b) the forced channel count toggles between 1 and 2 every 7..14 packets (losses and FEC recovery right after a channel switch)
+  const bool ch_toggle = g.ch == 2 && family == 2 && ((gh >> 8) % 3) == 1;
+  const int toggle_period = 7 + (int)((gh >> 16) % 8);
+  if (mono_stream) { opus_encoder_ctl(enc.p, OPUS_SET_FORCE_CHANNELS(1)); rep.label("stream:mono-coded-in-stereo-decoder"); }
+  if (ch_toggle) rep.label("stream:channel-count-toggles");
   bool two_talkers = false;   // (absolute FEC clause not asserted: calibration shows the frozen codec itself gains as little as -0.05 dB there)
   // two talkers: the right channel carries a second speech-like source that starts and stops independently of the left one, so that
   // side-channel activity differs between a lost packet and its successor (stereo LBRR / mid-only paths)
@@ -205,6 +214,7 @@ int vp_case(Choice& c, Report& rep) {
     rep.label("signal:voiced-continuous");
   }
   for (int i = 0; i < N; i++) {
+    if (ch_toggle && i % toggle_period == 0) opus_encoder_ctl(enc.p, OPUS_SET_FORCE_CHANNELS(((i / toggle_period) & 1) ? 1 : 2));
     pk[i].resize(1500);
     int n = opus_encode_float(enc.p, x.data() + (size_t)i * fs * g.ch, fs, pk[i].data(), 1500);
     VP_REQUIRE(n > 0, "c09:encode-failed", "encode returned %d", n);
